@@ -13,7 +13,7 @@ func init() {
 		NoFab(c, "R-NOFAB", fns, 25)
 		LockClosures(c, "R-LOCK", fns, 4)
 		NextGuard(c, "R-NEXTGUARD", libPkgs(c))
-		PanicSafeLock(c, "R-PANICSAFE", fns, 4)
+		PanicSafeLock(c, "R-PANICSAFE", fns, 2)
 		CacheGuard(c, "R-CACHEGUARD", libPkgs(c), 2)
 		RawField(c, "R-RAWFIELD", c.Pkg("fp"), 2)
 	})
